@@ -13,7 +13,7 @@ TABLE = [
      'bounded-exhaustive enumeration of whitelists x expansion k x ALL query strings through the real BarcodeParser, brute-force nearest-neighbour oracle',
      'Every whitelist of <=3 barcodes of length 3 (thorough: also <=2 of length 4, 1 of length 5) over ACGTN, every k in 0..2 and every '
      'query string of that length go through addBarcode/expand/getIndexCorrectedBarcodeAndHammingDistance; every file layout x gz x '
-     'eager/lazy loading; shipped whitelists against all 5^L queries (quick: 6-nt index list and the 8-nt DamID2 list; thorough: all '
+     'eager/lazy loading x accessor used before the first lookup (parser[alias], another alias, getTargetCount); shipped whitelists against all 5^L queries (quick: 6-nt index list and the 8-nt DamID2 list; thorough: all '
      'shipped lists <=8 nt and the 10-nt DamID2 list).',
      'Whitelists are sets of equal-length ACGTN strings; geometry needing >3 barcodes is only covered through the shipped lists.'),
     ('C09',
@@ -41,7 +41,7 @@ TABLE = [
     ('C11',
      'bounded-exhaustive enumeration of option sets x reads (all reads within 2 attribute changes of a plain read) on read_should_be_counted/assignReads and on create_count_table; independent recomputation oracle from the property text and CLI help',
      'Level 1: 490 reads x all option sets within distance 3 of the default (quick) / all 24576 option sets (thorough). Level 2: the same '
-     'reads in one BAM through create_count_table with -contig and -bedfile, option sets within distance 2 (quick) / 3 (thorough). '
+     'reads in one BAM through create_count_table with -contig, -bedfile and an unsorted blacklist BED, option sets within distance 2 (quick) / 3 (thorough). '
      'Interactions the documentation leaves open are executed but not judged (about 3.5% of cases, listed in the evidence assumptions).',
      'The oracle follows the CLI help strings; undocumented interactions (byValue x divided weight, NM missing, XA vs NH disagreement) are not judged.'),
     ('C02',
@@ -78,14 +78,14 @@ TABLE = [
     ('C13',
      'bounded-exhaustive enumeration of fragment words (every ordered word = every multiset in every insertion order) over per-position contribution kinds, plus 3-position window cases, on the real Molecule.get_consensus; brute-force vote oracle and permutation/doubling invariance',
      'Every ordered word of <=5 (thorough <=7) fragments over 8 position-level kinds (not covering, single-end A/C, N, mates agree, R1/R2 '
-     'disagree with either mate better, equal-quality disagreement), 11 kinds at <=3 (<=5); each multiset also doubled (appended and '
+     'disagree with either mate better, equal-quality disagreement), 13 kinds (third base, N-vs-base mates, phred-0 calls) at <=4 (<=5); each multiset also doubled (appended and '
      'interleaved); window level: 3 adjacent positions, <=3 fragments, all covered sub-windows, both strands, soft clip / deletion / '
      'insertion / skip reads, dove_safe on and off. Oracle: one call per fragment (better mate; tie or N = no call), strict plurality or absent.',
      'Fragments have an R1 (R2-only fragments are skipped by the code); qualities limited to two levels.'),
     ('C15',
      'bounded-exhaustive enumeration of coverage shapes (multisets of <=3 fragment letters: mate gap x mismatch class x read length, both strands, Nla/CHIC/plain classes) through deduplicate_majority, write_pysam(consensus=True), run_tagging_task and the real --consensus --multiprocess command line; well-formedness oracle',
      'All multisets of <=3 fragment letters (single end, overlapping, adjacent, small gap, gap beyond max_N_span; clean / R1 mismatch at q30 '
-     'or q10 / R2 mismatch; two read lengths) x strand x molecule class x max_N_span None/5 x with/without source reads. Oracle: aligned '
+     'or q10 / R2 mismatch / R1 with a one-base insertion; two read lengths) x strand x molecule class x max_N_span None/5 x with/without source reads. Oracle: aligned '
      'blocks == union of read coverage, len(seq)==len(qual)==CIGAR query length, MD rebuilt against the true reference, unanimous => that '
      'base, symmetric evidence => N, dominating evidence => that base, SM/RX/DS/TF/TR tags equal the molecule\'s.',
      'Reads with N bases and CHIC molecules with assignment radius >0 are not generated; "no record skips more than max_N_span" is taken from the parameter name.'),
@@ -93,7 +93,7 @@ TABLE = [
      'schedule enumeration: every check_eject_every in {None,0..n} x pooling method x cache size x fragment class for every coordinate-ordered multiset-word of fragment letters, on the real MoleculeIterator; differential oracle against the never-eject run',
      'All multisets of <=5 (thorough <=6) fragments over 12 letters (5 sites placed around the half-cache margin, short and long fragments, '
      'two cells, two UMIs, a reverse-strand fragment, a second contig), delivered in coordinate order with every order among ties, x every '
-     'ejection interval None,0..n x pooling 0/1 x cache 100/1000 x NlaIII / CHIC radius 0 / CHIC radius 15. Oracle: partition equals the '
+     'ejection interval None,0..n x pooling 0/1 x cache 100/1000 x NlaIII / CHIC radius 0 / CHIC radius 15; the same for the plain Fragment/Molecule classes over 10 single-end letters that share starts or ends (molecules that grow at their end). Oracle: partition equals the '
      'never-eject partition, every fragment emitted exactly once, pooling methods agree for exact UMIs on site-exact classes. '
      'Non-prefix ejections are counted as the non-trivial cases.',
      'Fragments span < half the cache size; UMIs compared exactly; input order = order in which a sorted BAM reader completes the pairs.'),
@@ -107,27 +107,27 @@ TABLE = [
     ('C06',
      'bounded-exhaustive enumeration of coordinate-ordered fragment words with known truth x class x UMI distance x radius x fragment cap x pooling on the real MoleculeIterator + write_tags; ground-truth partition oracle, flag/tag invariants, all input duplicate-flag patterns, second tagging pass',
      'All multisets of <=3 (thorough <=4) letters out of 15 (5 molecule keys: other strand, other cell, neighbouring site, far site; UMIs AAA/AAC/ACC/NAA; '
-     'variants other R2 end / soft clip / sequencing error), every order among equal coordinates, x {NlaIII, CHIC r=0, CHIC r=2, plain} x distance 0/1/2 x '
+     'variants other R2 end / soft clip on either strand / sequencing error), every order among equal coordinates, x {NlaIII, CHIC r=0, CHIC r=2, plain} x distance 0/1/2 x '
      'cap None/1/2 x pooling 0/1 (full product). Oracle: soundness (one cell, one strand, site graph and UMI graph connected), exactness for '
-     'distance 0, pairwise-close UMIs never split, exactly one non-duplicate fragment per molecule for all 2^n input flag patterns, RC a ranking, '
+     'distance 0 (with a fragment cap: first cap fragments together, the rest singletons, TF = true fragment count), pairwise-close UMIs never split, exactly one non-duplicate fragment per molecule for all 2^n input flag patterns, RC a ranking, '
      'af == size, TF >= af, and a second pass over the tagged reads changes no flag or tag.',
      'Truth is the simulator\'s (cell, site, strand, UMI); N in a UMI is treated as an uncalled base; invalid fragments belong to C05.'),
     ('C14',
      'bounded-exhaustive enumeration of reference windows x converted-position subsets x strand x TAPS strand convention x fragment shape on the real TAPS molecule classes with a real FastaFile; independent Bismark-style caller as oracle',
-     'Every window (length <=6 quick / <=8 thorough) of a de-Bruijn reference of order 3 over ACGTN plus edge and soft-masked contigs x every '
+     'Every window (length <=6 quick / <=8 thorough) of a de-Bruijn reference of order 3 over ACGTN plus edge and soft-masked contigs, and molecules tiled in coordinate order over a 1 kb contig through one shared TAPS handler, x every '
      'subset of C/G positions converted x strand x taps_strand x fragment shape (single R1 safe/unsafe, overlapping, split, gapped, dove-tailed '
      'pairs, indel pair) x NlaIII/CHIC TAPS molecules: calls, XM strings and MC/uC/sZ/sz/sX/sx/sH/sh totals are compared with an independent caller.',
      'One fragment per molecule (voting belongs to C13); options inside methylation_consensus_kwargs are not explored; a lower-case call on a '
      'non-conversion substitution is accepted.'),
     ('C05',
      'bounded-exhaustive enumeration of contig layouts through the real job builder (stubbed contig listing, probe instead of task generation) and of BAM layouts x method x --no_rejects x single/--multiprocess through the real command-line entry point with a scheduler-owned Pool, every completion order of the jobs; multiset-conservation oracle',
-     '(a) every layout word over small/large contigs with reads of length 0..7 (thorough 0..12), with/without the unmapped bin: each contig with '
+     '(a) every layout word over small (5 kb) / small (60 kb, two of them exceed the 100 kb grouping threshold) / large contigs with reads of length 0..6 (thorough 0..8), with/without the unmapped bin: each contig with '
      'reads in exactly one job, the unmapped bin once. (b) every header layout of <=3 (thorough <=4) contigs (small/large, with/without reads) '
      'with/without unmapped pairs, holding proper, duplicate, reverse, no-motif, half-mapped, split-contig and orphan fragments; methods '
      'nla/chic/qflag; --no_rejects on/off; single vs --multiprocess under ScheduledPool with every completion order (<=24/120) for nla, '
      'identity+reverse otherwise. Oracle: multiset of (name, mate, seq, qual, pos, CIGAR) equals the input primaries, coordinate sorted, usable '
-     '.bai, every record carries an RG declared in the header, --no_rejects removes exactly the invalid fragments; one free-running real-Pool '
-     'conformance run per layout class.',
+     '.bai, every record carries an RG declared in the header, --no_rejects removes exactly the invalid fragments; free-running real-Pool '
+     'conformance runs; one 10 500-fragment input per mode so that the buffer-ejection branch runs inside the tagger.',
      'No secondary/supplementary alignments; reads are pre-tagged; samtools absent so the pysam merge/sort paths run; worker count is '
      'observable only through the completion order.'),
     ('C12',
@@ -140,7 +140,7 @@ TABLE = [
      '|DS - read span| <= max_fragment_size; sites outside the contig only judged for invariance; several BAMs sharing cells (dict.update merge) is outside the property.'),
     ('C20',
      'crash-point / fault enumeration: every injection point discovered by an instrumented fault-free run x {exception, kill} x {single, --multiprocess} x {nla, chic}, each execution in a forked child (kill = os._exit at the point); status-vs-output oracle',
-     'Points: before/after every molecule write, before/after the read-group header rewrite (per job in multiprocess mode), before/inside/after every sort '
+     'Both on a fresh output path and as a re-run over the finished output of an earlier successful run (stale status file). Points: input verification, arguments that fail in set-up, before/after every molecule write, before/after the read-group header rewrite (per job in multiprocess mode), before/inside/after every sort '
      '(inside = half-written output), before/after every index, every pool job, before/inside/after merge, temp-folder cleanup. Quick: every single fault; '
      'thorough: also every pair of consecutive points and all three sort retries failing. Oracle: the status file never says success unless the run '
      'returned normally, and whenever it says success the BAM exists, ends with the BGZF EOF block, is coordinate sorted, has a usable up-to-date '
@@ -148,7 +148,7 @@ TABLE = [
      'Kills land at Python-level step boundaries and two modelled mid-write points; pool jobs run in-process (killing one OS worker of a real Pool hangs and is not explored).'),
     ('C08',
      'schedule + tiling enumeration: one serial run vs every (bin size, fetch margin, job size, pool on/off) tiling of the region API and vs --multiprocess, each under every completion order of the jobs (scheduler-owned Pool), on the real command-line entry point; record-multiset equality oracle',
-     'A tiny genome (3 contigs) holding a molecule on, one before and one after every bin boundary that any tiling of the alphabet produces (taken from '
+     'A tiny genome (3 contigs; for the contig-per-process comparison also three 45-60 kb contigs and a large one) holding a molecule on, one before and one after every bin boundary that any tiling of the alphabet produces (taken from '
      'the real tiling function), both strands, 1-3 duplicates, two cells, rejects, half-mapped and unmapped pairs; bin sizes {250,700,1000,>contig} '
      '(thorough adds 500), fetch margins {60=longest fragment, 1000} (thorough adds 100), job sizes {b,3b,inf}, with and without a pool; every '
      'completion order for <=4 (5) jobs, orders within 2 (3) adjacent swaps + reversal for more; methods nla and chic. Oracle: multiset of (name, mate, '
